@@ -97,14 +97,14 @@ func (c *clientService) Add(obj Actor) (uint32, error) {
 }
 
 func (c *clientService) Remove(objectID uint32) error {
-	c.objectsMutex.RLock()
+	c.objectsMutex.Lock()
 	handlerID, ok := c.objectsHandlers[objectID]
 	if !ok {
-		c.objectsMutex.RUnlock()
+		c.objectsMutex.Unlock()
 		return fmt.Errorf("cannot remove unkown object ID: %d", objectID)
 	}
 	delete(c.objectsHandlers, objectID)
-	c.objectsMutex.RUnlock()
+	c.objectsMutex.Unlock()
 	return c.context.EndPoint().RemoveHandler(handlerID)
 }
 
